@@ -97,6 +97,8 @@ def run_case(case, obs) -> None:  # noqa: C901, PLR0912, PLR0915
     rng = np.random.default_rng([abs(int(s)) for s in case["seed"]])
     m = zoo.Model(spec)
     iname_sys = type(m.system).__name__
+    how = ["fresh", "pickle", "copy", "deepcopy"][int(case["seed"][-1]) % 4]
+
     def measure(n_states, label, shrink=1.0):
         orders, eorders = [], []
         for _state in range(n_states):
@@ -109,7 +111,7 @@ def run_case(case, obs) -> None:  # noqa: C901, PLR0912, PLR0915
                     eps = eps0 / 2**j
                     ispec["step_size"] = eps
                     integ = zoo.make_integrator(m, ispec)
-                    st = integ.step(m.state(q, p, 1))
+                    st = integ.step(m.used_state(q, p, 1, how))
                     zq, zp = intgen.exact_flow(m, q, p, eps)
                     scale = 1 + max(np.max(np.abs(zq)), np.max(np.abs(zp)))
                     err = max(np.max(np.abs(st.pos - zq)), np.max(np.abs(st.mom - zp))) / scale
